@@ -1,12 +1,42 @@
 //! bgv — property-based testing / fuzzing driver for rust-bindgen (see /verif/DESIGN.md)
 
 mod bg;
+mod corpus;
 mod engine;
 mod props;
 mod rs;
 mod tools;
 
 use engine::Tier;
+
+/// bindgen (and libclang) print diagnostics to stderr; the driver silences fd 2 and keeps
+/// its own messages on a duplicate of the original stderr.
+pub static NOTE_FD: std::sync::atomic::AtomicI32 = std::sync::atomic::AtomicI32::new(2);
+
+#[macro_export]
+macro_rules! note {
+    ($($arg:tt)*) => {{
+        let s = format!($($arg)*);
+        let fd = $crate::NOTE_FD.load(std::sync::atomic::Ordering::Relaxed);
+        let line = format!("{s}\n");
+        unsafe { libc::write(fd, line.as_ptr() as *const libc::c_void, line.len()); }
+    }};
+}
+
+fn silence_stderr() {
+    if std::env::var_os("BGV_SHOW_STDERR").is_some() {
+        return;
+    }
+    unsafe {
+        let saved = libc::dup(2);
+        let null = libc::open(b"/dev/null\0".as_ptr() as *const libc::c_char, libc::O_WRONLY);
+        if saved >= 0 && null >= 0 {
+            libc::dup2(null, 2);
+            libc::close(null);
+            NOTE_FD.store(saved, std::sync::atomic::Ordering::Relaxed);
+        }
+    }
+}
 use std::path::Path;
 
 fn usage() -> ! {
@@ -50,6 +80,7 @@ fn main() {
                 _ => usage(),
             };
             bg::install_quiet_panic_hook();
+            silence_stderr();
             let code = props::dispatch_check(&args[2], tier);
             std::process::exit(code);
         }
